@@ -34,8 +34,8 @@ def chain_functions(chk):
 def leaf_kind(prog, fi):
     """how the runner's run_payload runs the payload"""
     for n in ast.walk(fi.node):
-        if isinstance(n, ast.Call):
-            r = prog.resolve(fi.module, n.func)
+        if isinstance(n, (ast.Attribute, ast.Name)):
+            r = prog.resolve(fi.module, n)
             if r == "ext:asyncio.run_coroutine_threadsafe":
                 return "asyncio"
             if r == "ext:trio.from_thread.run":
@@ -109,6 +109,16 @@ def identity_and_transparency(chk):
             chk.ok("O10.1", name, "%s returns the un-transformed result of %s" % (label, "the payload" if kind else "the next run_payload"), node=fi.node)
         # ---- O10.2 exception transparency
         ok = True
+        own = [n for n in ast.walk(fi.node) if isinstance(n, ast.Raise)]
+        for n in own:
+            chk.bad(
+                "O10.2",
+                name,
+                "%s raises an exception of its own (%s): the caller of execute gets an exception the payload never raised, and the payload is not run" % (label, util.unparse(n.exc) if n.exc is not None else "re-raise"),
+                node=n,
+                stmt="own-raise %s" % (util.unparse(n.exc)[:60] if n.exc is not None else ""),
+            )
+            ok = False
         for what, e in INJECT.items():
 
             def hook(it, path, ct, node, e=e):
@@ -161,7 +171,7 @@ def leaves(chk, fns):
                     chk.bad("O10.4", name, "the asyncio runner does not create exactly one coroutine payload() and submit it once", node=fi.node, stmt="asyncio-call")
                     ok = False
                     continue
-                args = list(sub[0][2]) + [v for _n, v in sub[0][3]]
+                args = list(sub[0][2]) + [v for k_, v in sub[0][3] if k_ in (None, "loop")]
                 if args[:1] != [inv[0]]:
                     chk.bad("O10.4", name, "the submitted coroutine is not payload()", node=fi.node, stmt="asyncio-coro")
                     ok = False
@@ -204,12 +214,19 @@ def bypass(chk, fns, runners):
                 continue
             seen.add(f.qual)
             asserts = {id(x) for n in ast.walk(f.node) if isinstance(n, ast.Assert) for x in ast.walk(n)}
+            par = util.parents_map(f.node)
             for n in ast.walk(f.node):
                 if isinstance(n, ast.Attribute) and isinstance(n.value, ast.Name) and n.value.id == "self":
                     chk.count()
                     if id(n) in asserts:
                         continue
                     if n.attr in forbidden_attrs:
+                        # only uses that can change or feed the object count: a method call on it, a store,
+                        # or handing it to another call -- a plain read (e.g. into a local for an assert) does not
+                        up = par.get(id(n))
+                        mutating = isinstance(n.ctx, ast.Store) or (isinstance(up, ast.Attribute) and isinstance(par.get(id(up)), ast.Call) and par[id(up)].func is up) or (isinstance(up, ast.Call) and n in up.args)
+                        if not mutating:
+                            continue
                         bad.append((n, "self.%s" % n.attr))
                     elif n.attr in forbidden_methods:
                         bad.append((n, "self.%s" % n.attr))
